@@ -1,0 +1,48 @@
+//go:build verif
+
+// Verification hook for property C32 (add-only; compiled only with -tags
+// verif). Exposes the unexported event loop of loop.go and the occupancy of its
+// channels. It adds no behaviour of its own.
+
+package cli
+
+// VerifC32Loop wraps the unexported loop.
+type VerifC32Loop struct{ lp *loop }
+
+// Constants of loop.go.
+const (
+	VerifC32InputChSize = inputChSize
+	VerifC32FullRedraw  = uint(fullRedraw)
+	VerifC32FinalRedraw = uint(finalRedraw)
+)
+
+// VerifC32NewLoop calls newLoop.
+func VerifC32NewLoop() *VerifC32Loop { return &VerifC32Loop{newLoop()} }
+
+// HandleCb sets the handle callback.
+func (v *VerifC32Loop) HandleCb(cb func(ev any)) { v.lp.HandleCb(func(e event) { cb(e) }) }
+
+// RedrawCb sets the redraw callback.
+func (v *VerifC32Loop) RedrawCb(cb func(flag uint)) {
+	v.lp.RedrawCb(func(f redrawFlag) { cb(uint(f)) })
+}
+
+// Redraw calls loop.Redraw.
+func (v *VerifC32Loop) Redraw(full bool) { v.lp.Redraw(full) }
+
+// Input calls loop.Input.
+func (v *VerifC32Loop) Input(ev any) { v.lp.Input(ev) }
+
+// Return calls loop.Return.
+func (v *VerifC32Loop) Return(buffer string, err error) { v.lp.Return(buffer, err) }
+
+// HasReturned calls loop.HasReturned.
+func (v *VerifC32Loop) HasReturned() bool { return v.lp.HasReturned() }
+
+// Run calls loop.Run.
+func (v *VerifC32Loop) Run() (string, error) { return v.lp.Run() }
+
+// Pending reports how many items sit in the input, redraw and return channels.
+func (v *VerifC32Loop) Pending() (inputs, tokens, returns int) {
+	return len(v.lp.inputCh), len(v.lp.redrawCh), len(v.lp.returnCh)
+}
